@@ -699,6 +699,50 @@ Section INV.
         * destruct (Nat.eqb_spec u to) as [->|]; rewrite ?P1; reflexivity.
   Qed.
 
+  Lemma getth_do_sleep st from to rest exp wq u :
+    WF st -> s_runq st = from :: to :: rest ->
+    getth (do_sleep st exp wq) u =
+    if Nat.eqb u from
+    then set_tts (match wq with
+                  | Some q => set_twaitq (set_tstate (getth st from) SLEEPING) (Some q)
+                  | None => set_tstate (getth st from) SLEEPING end) exp
+    else if Nat.eqb u to then set_tstate (getth st to) RUNNING else getth st u.
+  Proof.
+    intros W Hr.
+    pose proof (wf_nodup _ W) as Hnd. rewrite Hr in Hnd.
+    assert (Hne : from <> to) by (inversion Hnd as [|? ? Hx _]; subst; intros ->; apply Hx; left; auto).
+    assert (Hf : (from < nthreads st)%nat) by (apply ring_in_range; auto; rewrite Hr; simpl; auto).
+    assert (Ht : (to < nthreads st)%nat) by (apply ring_in_range; auto; rewrite Hr; simpl; auto).
+    unfold do_sleep. rewrite Hr. cbv zeta.
+    pose proof (fun u => getth_remove_current st from to rest SLEEPING u Hr Hne Hf Ht) as G1.
+    destruct (remove_current_frame st from to rest SLEEPING Hr) as (R1&F2&F3&F4&F5&F6&F7&F8).
+    set (st1 := remove_current st SLEEPING) in *.
+    set (st2 := match wq with
+                | Some q => modth (wq_set st1 q (wq_get st1 q ++ [from])) from (fun th => set_twaitq th (Some q))
+                | None => st1 end).
+    assert (G2 : forall u, getth st2 u = if Nat.eqb u from then
+                    match wq with Some q => set_twaitq (getth st1 from) (Some q) | None => getth st1 from end
+                    else getth st1 u).
+    { intros v. unfold st2. destruct wq as [q|].
+      - rewrite getth_modth. change (nthreads (wq_set st1 q (wq_get st1 q ++ [from]))) with (nthreads st1).
+        destruct (Nat.eqb_spec v from) as [->|]; simpl; auto.
+        destruct (Nat.ltb_spec from (nthreads st1)); [reflexivity|lia].
+      - destruct (Nat.eqb_spec v from) as [->|]; auto. }
+    assert (N2 : nthreads st2 = nthreads st).
+    { unfold st2. destruct wq; [rewrite nthreads_modth|]; exact F7. }
+    clearbody st2.
+    change (getth (set_sleepq ?a ?b) u) with (getth a u).
+    rewrite getth_modth. change (nthreads (update_now st2)) with (nthreads st2).
+    change (getth (update_now st2) ?x) with (getth st2 x).
+    assert (Hneb : Nat.eqb from to = false) by (apply Nat.eqb_neq; auto).
+    destruct (Nat.eqb_spec u from) as [->|Hu]; simpl.
+    - destruct (Nat.ltb_spec from (nthreads st2)); [|lia].
+      rewrite G2, Nat.eqb_refl, G1, Nat.eqb_refl, Hneb. destruct wq; reflexivity.
+    - rewrite G2. destruct (Nat.eqb_spec u from); [congruence|]. rewrite G1.
+      destruct (Nat.eqb_spec u to) as [->|]; [reflexivity|].
+      destruct (Nat.eqb_spec u from); [congruence|reflexivity].
+  Qed.
+
   Lemma WF_do_sleep st from to rest exp wq :
     WF st -> s_runq st = from :: to :: rest -> from <> idler_tid st ->
     th_waitq (getth st from) = None -> WF (do_sleep st exp wq).
